@@ -3,6 +3,7 @@ package main
 import (
 	"encoding/json"
 	"fmt"
+	"time"
 
 	"os"
 	"path/filepath"
@@ -126,6 +127,37 @@ func replayLarge(c *Ctx, raw json.RawMessage) bool {
 		}
 		if first == "" {
 			first = string(res.Stdout)
+		} else if first != string(res.Stdout) {
+			return true
+		}
+	}
+	return false
+}
+
+// replayBigObjects re-executes the runs on the big-object repository on a fresh -race build.
+func replayBigObjects(c *Ctx, raw json.RawMessage) bool {
+	scratch, _ := mkScratch(c.Scratch)
+	race, err := run.BuildSizer(filepath.Join(scratch, "racebin"), "verif", true)
+	if err != nil {
+		Infra("%v", err)
+	}
+	repoDir := filepath.Join(scratch, "r")
+	sc := bigObjectsCase()
+	if _, err := materialiseCase(repoDir, &sc); err != nil {
+		Infra("replay: %v", err)
+	}
+	first := ""
+	for rep := 0; rep < 12; rep++ {
+		res := race.Run(run.Opt{Dir: repoDir, Args: []string{"--json", "--no-progress"}, Home: scratch, Timeout: 120 * time.Second,
+			Env: []string{fmt.Sprintf("GOMAXPROCS=%d", []int{4, 1, 16, 2}[rep%4]), "GORACE=halt_on_error=0"}})
+		if res.Exit != 0 || strings.Contains(string(res.Stderr), "DATA RACE") {
+			return true
+		}
+		if first == "" {
+			first = string(res.Stdout)
+			if !strings.Contains(first, "\"max_tree_entries\": 32001") {
+				return true
+			}
 		} else if first != string(res.Stdout) {
 			return true
 		}
